@@ -36,7 +36,7 @@ def mandatory_bins(tier):
     b = ["L%d" % L for L in range(254)]
     b += ["crc_lo_%02x" % v for v in range(256)] + ["crc_hi_%02x" % v for v in range(256)]
     b += ["crc_lo_00_solved", "crc_hi_00_solved", "crc_both_00_solved", "trailing_zero_payload", "key_ends_00",
-          "wrong_key", "wrong_marker", "wrong_crc", "custkey_pos_first", "custkey_pos_last", "custkey_mismatch", "custkey_pattern_before_slot",
+          "wrong_key", "wrong_marker", "wrong_crc", "custkey_pos_first", "custkey_pos_last", "custkey_mismatch", "custkey_pattern_before_slot", "shared_encryptor_object_sequence",
           "security_code", "security_code_all_zero", "model_frame_accepted", "same_object_reuse"]
     return b
 
@@ -271,6 +271,32 @@ def run_shard(spec, ctx):
                     if quick and pn == "mid" and tag != "random":
                         continue
                     check_case(ns, ctx, "cust", key, payload, ck=ck, pos=pos, nwrong=1, tamper=(tag == "random"))
+    # one encryptor object reused for a whole sequence of wraps of varying length: every frame must still be exact
+    B = ns.bec2file
+    for kind in ("cust", "code"):
+        k_ = rng.randbytes(16)
+        c_ = rng.randbytes(8)
+        shared = B.SoftwareCustKeyEncryptor(k_) if kind == "cust" else B.ConfigSecurityCodeEncryptor(c_)
+        aes_ = k_ if kind == "cust" else model.security_code_key(c_)
+        lens = [40, 0, 12, 28, 11, 27, 253, 1, 13, 29, 45, 5, 60, 3] + [rng.randrange(254) for _ in range(40)]
+        for L in lens:
+            payload = bytes([0xAA]) * L if L % 2 == 0 else rng.randbytes(L)
+            ctx.ev()
+            ctx.bin("shared_encryptor_object_sequence")
+            ctx.distinct("shared", kind, aes_, L, payload)
+            rp = {"kind": kind, "key": k_.hex() if kind == "cust" else None, "payload": payload.hex(), "ck": None, "pos": None, "code": c_.hex() if kind == "code" else None, "shared_sequence": lens}
+            try:
+                ct = shared.encrypt(payload)
+                fr = ossl.aes_cbc(aes_, ossl.ZERO_IV, ct, False) if len(ct) % 16 == 0 and ct else b""
+                if fr != model.frame(payload):
+                    ctx.violation("frame_depends_on_earlier_calls_of_the_same_encryptor_object", {"L": L, "got": fr, "expected": model.frame(payload)}, rp)
+                    break
+                if shared.decrypt(ct) != payload:
+                    ctx.violation("unwrap_returns_other_payload:shared_object", {"L": L}, rp)
+                    break
+            except Exception as e:
+                ctx.violation("wrap_raises", {"L": L, "exc": fmt_exc(e)}, rp)
+                break
     # customer key whose byte pattern also occurs in the payload BEFORE its slot (quoted key, periodic keys)
     if spec["res"] in (0, 5, 11):
         for L in (24, 40, 64, 100, 253):
